@@ -735,7 +735,7 @@ func c06Generate(r *rng, tier string, sm *summary) []c06Case {
 			}
 		}
 	}
-	nChain := 260
+	nChain := 200
 	if thorough {
 		nChain = len(chains)
 	}
@@ -774,7 +774,7 @@ func c06Generate(r *rng, tier string, sm *summary) []c06Case {
 			sks = append(sks, stackKey{ks, e})
 		}
 	}
-	nStack := 300
+	nStack := 220
 	if thorough {
 		nStack = len(sks)
 	}
@@ -783,8 +783,8 @@ func c06Generate(r *rng, tier string, sm *summary) []c06Case {
 	}
 
 	// random tables
-	nRand := 700
-	nRegion := 40
+	nRand := 520
+	nRegion := 36
 	if thorough {
 		nRand, nRegion = 12000, 500
 	}
